@@ -193,12 +193,167 @@ fn gen_nice(rng: &mut Rng, f: Fmt) -> BigInt {
     m * pow10(k)
 }
 
+
+/// largest |b| with trunc(b^n / ONE^(n-1)) still representable (found by bisection on exact integers)
+fn pow_boundary(f: Fmt, n: u64) -> BigInt {
+    let (mut lo, mut hi) = (BigInt::zero(), f.max() + 1);
+    while &hi - &lo > BigInt::one() {
+        let mid: BigInt = (&lo + &hi) / 2;
+        // value of mid^n in subunits, computed with the same per-step truncation-free exact arithmetic
+        let v = ipow(&mid, n) / ipow(&f.one(), n - 1);
+        if f.fits(&v) {
+            lo = mid;
+        } else {
+            hi = mid;
+        }
+    }
+    lo
+}
+
+/// The deterministic boundary family (identical for every seed): roots of MIN, MAX, 0, +-1 atto for every
+/// degree 0..70, a wider set of values for degrees up to 8, perfect powers and their neighbours, powers
+/// of fixed bases with fixed exponents incl. i64::MIN/MAX, squares / cubes at the overflow boundary.
+fn boundary_family() -> Vec<(Fmt, Op)> {
+    let mut out = Vec::new();
+    for f in FMTS {
+        let one = f.one();
+        let onep: BigInt = &one + 1;
+        let onem: BigInt = &one - 1;
+        let few = [f.min(), f.max(), BigInt::zero(), -BigInt::one()];
+        let many = [
+            f.min(), f.min() + 1, f.max(), f.max() - 1, BigInt::zero(), BigInt::one(), -BigInt::one(), one.clone(), -one.clone(),
+            onep.clone(), onem.clone(), -onep.clone(), &one * 2, &one / 2,
+        ];
+        let many: [BigInt; 14] = many;
+        for x in &many {
+            out.push((f, Op::Sqrt(x.clone())));
+            out.push((f, Op::Cbrt(x.clone())));
+        }
+        for n in 0..=70u32 {
+            let xs: &[BigInt] = if n <= 8 { &many } else { &few };
+            for x in xs {
+                out.push((f, Op::NthRoot(x.clone(), n)));
+            }
+        }
+        // perfect powers k^n (as values) and one subunit next to them
+        for k in [2i64, 3, 10] {
+            for n in 2..=8u32 {
+                let v = ipow(&BigInt::from(k), n as u64) * &one;
+                for sgn in [1, -1] {
+                    for dl in -1..=1 {
+                        let x = &v * sgn + dl;
+                        out.push((f, match n {
+                            2 => Op::Sqrt(x),
+                            3 => Op::Cbrt(x),
+                            _ => Op::NthRoot(x, n),
+                        }));
+                    }
+                }
+            }
+        }
+        // powers
+        let two: BigInt = &one * 2;
+        let half: BigInt = &one / 2;
+        let bases: [BigInt; 18] = [
+            BigInt::zero(), BigInt::one(), -BigInt::one(), one.clone(), -one.clone(), onep.clone(), onem.clone(), -onep.clone(), -onem.clone(),
+            two.clone(), -two.clone(), half.clone(), -half.clone(), &one * 10, &one / 10, f.min(), f.max(), f.min() + 1,
+        ];
+        let exps = [i64::MIN, i64::MIN + 1, -64, -63, -3, -2, -1, 0, 1, 2, 3, 63, 64, i64::MAX - 1, i64::MAX];
+        for b in &bases {
+            for e in exps {
+                out.push((f, Op::Powi(b.clone(), e)));
+            }
+        }
+        // squares and cubes at the overflow boundary: the largest base whose power fits, and the next one
+        for n in [2u64, 3, 4, 5] {
+            let b = pow_boundary(f, n);
+            let bp: BigInt = &b + 1;
+            for base in [b.clone(), bp.clone(), &b - 1, -b.clone(), -bp.clone()] {
+                if f.fits(&base) {
+                    out.push((f, Op::Powi(base, n as i64)));
+                }
+            }
+        }
+        // reciprocals at the limits: 1/x for the smallest magnitudes
+        for x in [BigInt::one(), -BigInt::one(), BigInt::from(2), pow10(f.scale() * 2) / f.max(), pow10(f.scale() * 2) / f.max() + 1] {
+            out.push((f, Op::Powi(x.clone(), -1)));
+            out.push((f, Op::Powi(x, -2)));
+        }
+    }
+    out
+}
+
+fn boundary_class(f: Fmt, op: &Op, out: &Out) -> Vec<String> {
+    let mut v = Vec::new();
+    let some = if matches!(out, Out::Ok(_)) { "some" } else { "none" };
+    let lim = |x: &BigInt| -> Option<&'static str> {
+        if *x == f.min() {
+            Some("min")
+        } else if *x == f.max() {
+            Some("max")
+        } else if x.is_zero() {
+            Some("zero")
+        } else if x.abs().is_one() {
+            Some("one_atto")
+        } else if x.abs() == f.one() {
+            Some("unit")
+        } else {
+            None
+        }
+    };
+    match op {
+        Op::Sqrt(x) => {
+            if let Some(l) = lim(x) {
+                v.push(format!("bnd_{}_sqrt_of_{}_{}", f.name(), l, some));
+            }
+        }
+        Op::Cbrt(x) => {
+            if let Some(l) = lim(x) {
+                v.push(format!("bnd_{}_cbrt_of_{}_{}", f.name(), l, some));
+            }
+        }
+        Op::NthRoot(x, n) => {
+            if let Some(l) = lim(x) {
+                let deg = if *n == 0 { "deg0" } else if *n == 1 { "deg1" } else if n % 2 == 0 { "even" } else { "odd" };
+                v.push(format!("bnd_{}_root_{}_of_{}_{}", f.name(), deg, l, some));
+                if *n >= 60 {
+                    v.push(format!("bnd_{}_root_degree_60_to_70", f.name()));
+                }
+            }
+        }
+        Op::Powi(b, e) => {
+            if *e == i64::MIN || *e == i64::MAX || *e == i64::MIN + 1 || *e == i64::MAX - 1 {
+                let en = if *e == i64::MIN { "i64min" } else if *e == i64::MAX { "i64max" } else if *e < 0 { "i64min_plus_1" } else { "i64max_minus_1" };
+                v.push(format!("bnd_{}_powi_exp_{}_{}", f.name(), en, some));
+            }
+            if let Some(l) = lim(b) {
+                v.push(format!("bnd_{}_powi_base_{}_{}", f.name(), l, some));
+            }
+            if (2..=5).contains(e) {
+                // exactly at the overflow boundary of this exponent
+                let n = *e as u64;
+                let val = |z: &BigInt| ipow(z, n) / ipow(&f.one(), n - 1);
+                let a = b.abs();
+                if f.fits(&val(&a)) && !f.fits(&val(&(&a + 1))) {
+                    v.push(format!("bnd_{}_powi_{}_largest_fitting_base_{}", f.name(), e, some));
+                } else if !f.fits(&val(&a)) && f.fits(&val(&(&a - 1))) {
+                    v.push(format!("bnd_{}_powi_{}_first_overflowing_base_{}", f.name(), e, some));
+                }
+            }
+        }
+    }
+    v
+}
+
+const FAMILY_FLOORS: &[(&str, u64)] = &include!("c26_family_floors.in");
+
 fn main() {
     let args = Args::parse();
     let mut report = Report::new(
         "C26",
         args.seed,
-        "checked_powi (exponents -30..30, +-1500, 2^12..2^62, i64::MIN/MAX; bases uniform in bit length, boundaries, short decimals with exact powers), \
+        "deterministic boundary family (every seed): roots of MIN/MAX/0/+-1 atto for every degree 0..70, a wider value set for degrees <= 8, perfect powers +-1 subunit, \
+         fixed bases x fixed exponents incl. i64::MIN/MAX +-1, largest base whose 2nd..5th power fits and the next one; then random: checked_powi (exponents -30..30, +-1500, 2^12..2^62, i64::MIN/MAX; bases uniform in bit length, boundaries, short decimals with exact powers), \
          checked_sqrt, checked_cbrt, checked_nth_root (degrees 0..70) incl. perfect powers +-1; non-trivial = inexact root, or power with |exp| >= 2 and base not in {0, +-1}; distinct by operation text",
     );
     let mut cw = CaseWriter::new("RV.Corr.C26_run RV.Lib.DecCore RV.Model.C26_RootPow", "check");
@@ -217,7 +372,9 @@ fn main() {
         fixed.push((f, Op::NthRoot(f.max(), 70)));
         fixed.push((f, Op::Sqrt(f.max())));
     }
-    for i in 0..args.cases {
+    fixed.extend(boundary_family());
+    let nfam = fixed.len();
+    for i in 0..(nfam + args.cases) {
         let mut rng = root.fork(i as u64);
         let (f, op) = if i < fixed.len() {
             fixed[i].clone()
@@ -266,6 +423,9 @@ fn main() {
             _ => false,
         };
         report.case(&canon, nontrivial);
+        for c in boundary_class(f, &op, &out) {
+            report.count(&c);
+        }
         report.count(match &op {
             Op::Powi(_, e) if *e < 0 => "op_powi_negative_exp",
             Op::Powi(..) => "op_powi_nonnegative_exp",
@@ -297,6 +457,10 @@ fn main() {
             report.sample(json!({"format": f.name(), "op": op_coq(&op), "out": out.short()}));
         }
         cw.push(format!("({}, {}, {})", f.coq(), op_coq(&op), out.coq()));
+    }
+    report.extra.insert("boundary_family_cases".into(), json!(nfam));
+    for (k, m) in FAMILY_FLOORS {
+        report.floor(k, *m);
     }
     let n = args.cases as u64;
     report.floor("powi_ok_exact", n / 100);
